@@ -1,5 +1,6 @@
 //@include prelude/head.rs
-broadcast use {ax::axiom_string_eq_spec, ax::axiom_string_obeys_eq, ax::axiom_string_to_string, tmod::axiom_taskmap_view_injective, ax::axiom_string_view_injective};
+//@include prelude/hash.rs
+broadcast use {vstd::std_specs::hash::group_hash_axioms, axh::axiom_uuid_key_model, ax::axiom_string_eq_spec, ax::axiom_string_obeys_eq, ax::axiom_string_to_string, tmod::axiom_taskmap_view_injective, ax::axiom_string_view_injective};
 //@props C07
 //@include regions/errors.rs
 //@include regions/op_types.rs
